@@ -353,8 +353,8 @@ def reader(ctx, F):
             for a in n["arms"]:
                 pk = hir.pat_key(a["pat"])
                 b = hir.strip(a["body"])
-                if isinstance(pk, tuple) and pk[0] == "lit" and b.get("k") == "MethodCall" and "castling" in b["name"]:
-                    t[pk[1]] = b["name"]
+                if isinstance(pk, tuple) and pk[0] == "lit" and b.get("k") == "MethodCall" and "castling" in (hir.callee_of(b) or b["name"]):
+                    t[pk[1]] = (hir.callee_of(b) or b["name"]).rsplit("::", 1)[-1]      # resolved (anchor) name, not the spelling
             if t:
                 ctab = (t, n)
     exp = {"K": "set_white_king_castling_true", "Q": "set_white_queen_castling_true",
